@@ -1,18 +1,22 @@
 package main
 
 import (
+	"bytes"
 	"fmt"
 	"io/ioutil"
 	"net"
 	"os"
+	"reflect"
 	"strconv"
 	"strings"
 	"sync"
 	"syscall"
 	"time"
+	"unsafe"
 
 	"github.com/grafana/carbon-relay-ng/destination"
 	"github.com/grafana/carbon-relay-ng/matcher"
+	"github.com/grafana/carbon-relay-ng/nsqd"
 	"github.com/grafana/carbon-relay-ng/stats"
 )
 
@@ -24,6 +28,8 @@ import (
 //	down / up           close the endpoint (listener and connections) / listen again on the same port
 //	silent              build an endpoint that never answers connection attempts (listen backlog 0, accept queue full)
 //	update addr=silent|addr=ep|prefix=<s>   Destination.Update in a goroutine of its own, as the admin interface does (modDest)
+//	mode <m>            change how the endpoint reads from now on (healthy | blackhole | slow), also on open connections
+//	flush               Destination.Flush() in a goroutine
 //	sleep <ms>
 //	keep <ms>           keepSafe rotation period of the connections of the next cfg (default: the code's 10 s)
 //	hold <hex>          hold HandleData at its schedule point when it has received exactly this line (until `release`)
@@ -39,6 +45,7 @@ type endpoint struct {
 	recv  [][]byte // per accepted connection
 	total int
 	mode  string // healthy | blackhole (accept, never read) | slow (read a little every few ms)
+	gen   int    // incremented by down(): readers of closed connections stop
 }
 
 func (e *endpoint) listen() error {
@@ -70,18 +77,28 @@ func (e *endpoint) listen() error {
 			e.recv = append(e.recv, nil)
 			e.conns = append(e.conns, c)
 			e.Unlock()
-			mode := e.mode
+			e.Lock()
+			gen := e.gen
+			e.Unlock()
 			go func() {
-				if mode == "blackhole" {
-					return // accepted, never read
-				}
-				buf := make([]byte, 65536)
-				if mode == "slow" {
-					buf = make([]byte, 512)
-				}
+				// the reading behaviour follows the endpoint's current mode, so that a connection can stall and resume
+				big := make([]byte, 65536)
 				for {
-					if mode == "slow" {
+					e.Lock()
+					mode := e.mode
+					gone := e.gen != gen
+					e.Unlock()
+					buf := big
+					switch mode {
+					case "blackhole": // accepted, not read (for now)
+						if gone {
+							return
+						}
+						time.Sleep(5 * time.Millisecond)
+						continue
+					case "slow":
 						time.Sleep(2 * time.Millisecond)
+						buf = big[:512]
 					}
 					n, err := c.Read(buf)
 					if n > 0 {
@@ -109,7 +126,36 @@ func (e *endpoint) down() {
 		c.Close()
 	}
 	e.conns = nil
+	e.gen++
 	e.Unlock()
+}
+
+func (e *endpoint) newlines() int {
+	e.Lock()
+	defer e.Unlock()
+	n := 0
+	for _, r := range e.recv {
+		n += bytes.Count(r, []byte{'\n'})
+	}
+	return n
+}
+
+// complete length-prefixed frames received so far (pickle mode)
+func (e *endpoint) frames() int {
+	e.Lock()
+	defer e.Unlock()
+	n := 0
+	for _, r := range e.recv {
+		for i := 0; i+4 <= len(r); {
+			l := int(r[i])<<24 | int(r[i+1])<<16 | int(r[i+2])<<8 | int(r[i+3])
+			if i+4+l > len(r) {
+				break
+			}
+			i += 4 + l
+			n++
+		}
+	}
+	return n
 }
 
 func (e *endpoint) totalRecv() int {
@@ -119,6 +165,23 @@ func (e *endpoint) totalRecv() int {
 }
 
 var destSeq int
+
+// spoolBacklog reads, through the unexported fields, how much the destination's spool still holds: the disk queue's depth plus
+// what sits in the channels in front of it (0 when spooling is off)
+func spoolBacklog(d *destination.Destination) int64 {
+	sp := reflect.ValueOf(d).Elem().FieldByName("spool")
+	if sp.IsNil() {
+		return 0
+	}
+	sp = sp.Elem()
+	n := int64(sp.FieldByName("queueBuffer").Len() + sp.FieldByName("InRT").Len())
+	q := sp.FieldByName("queue")
+	q = reflect.NewAt(q.Type(), unsafe.Pointer(q.UnsafeAddr())).Elem()
+	if dq, ok := q.Interface().(*nsqd.DiskQueue); ok && dq != nil {
+		n += dq.Depth()
+	}
+	return n
+}
 
 // an endpoint that does not answer connection attempts: a listening socket with backlog 0 whose accept queue is full.
 // Linux drops further SYNs, so a connect() to it hangs until the kernel gives up (minutes). "" if it cannot be built.
@@ -164,6 +227,7 @@ func init() {
 		sent := 0
 		keep := 10 * time.Second
 		silentAddr := ""
+		isPickle := false
 		var holdMu sync.Mutex
 		var holdLine []byte
 		var held, release chan bool
@@ -213,6 +277,7 @@ func init() {
 			case "cfg":
 				stop()
 				pickle := f[1] == "1"
+				isPickle = pickle
 				iobuf, _ := strconv.Atoi(f[2])
 				connbuf, _ := strconv.Atoi(f[3])
 				flushms, _ := strconv.Atoi(f[4])
@@ -262,6 +327,14 @@ func init() {
 				}
 				sent = 0
 				pace = 0
+			case "mode":
+				ep.Lock()
+				ep.mode = f[1]
+				ep.Unlock()
+			case "flush":
+				// Destination.Flush (table.Flush / route.Flush), from a goroutine of its own
+				dd := d
+				go dd.Flush()
 			case "silent":
 				silentAddr = silentEndpoint()
 				emit("silent %v", silentAddr != "")
@@ -300,18 +373,22 @@ func init() {
 					release = nil
 				}
 			case "drain":
+				// the endpoint has received nothing new for <ms> AND (white box, as the property's observation points say) the
+				// spool holds nothing any more: disk queue depth 0, nothing in its input buffer. On a loaded machine the disk
+				// queue can pause for longer than any fixed quiet period.
 				ms, _ := strconv.Atoi(f[1])
 				last, since := -1, time.Now()
-				deadline := time.Now().Add(20 * time.Second)
+				deadline := time.Now().Add(90 * time.Second)
 				for time.Now().Before(deadline) {
 					t := ep.totalRecv()
 					if t != last {
 						last, since = t, time.Now()
-					} else if time.Since(since) > time.Duration(ms)*time.Millisecond {
+					} else if time.Since(since) > time.Duration(ms)*time.Millisecond && spoolBacklog(d) == 0 {
 						break
 					}
 					time.Sleep(5 * time.Millisecond)
 				}
+				emit("drained backlog=%d", spoolBacklog(d))
 			case "pace":
 				us, _ := strconv.Atoi(f[1])
 				pace = time.Duration(us) * time.Microsecond
@@ -372,15 +449,25 @@ func init() {
 				ms, _ := strconv.Atoi(f[1])
 				time.Sleep(time.Duration(ms) * time.Millisecond)
 			case "end":
-				// quiescence: nothing new received for a while (several flush periods)
-				last, since := -1, time.Now()
+				// quiescence: nothing new received for a while (several flush periods). On a loaded machine a flush tick can be
+				// late by more than that, so while lines are still unaccounted (text mode: received newlines + counted drops <
+				// handed off) the wait goes on, up to 5 s
+				last, since, t0 := -1, time.Now(), time.Now()
 				deadline := time.Now().Add(8 * time.Second)
 				for time.Now().Before(deadline) {
 					t := ep.totalRecv()
 					if t != last {
 						last, since = t, time.Now()
 					} else if time.Since(since) > 300*time.Millisecond {
-						break
+						drops := cnt("unit=Metric.action=drop.reason=slow_conn") + cnt("unit=Metric.action=drop.reason=conn_down_no_spool") +
+							cnt("unit=Metric.action=drop.reason=slow_spool") + cnt("unit=Metric.action=drop.reason=bad_pickle")
+						got := ep.newlines()
+						if isPickle {
+							got = ep.frames()
+						}
+						if got+int(drops) >= sent || time.Since(t0) > 5*time.Second {
+							break
+						}
 					}
 					time.Sleep(10 * time.Millisecond)
 				}
